@@ -99,9 +99,7 @@ def cases(ctx):
     sweep_banks = range(0, 256) if tier == "thorough" else [0x01, 0x7E]
     for bus in ("low", "high"):
         for bank in sweep_banks:
-            for fn in ("phys", 1, 0x8000):
-                if tier == "quick" and fn == 0x8000:
-                    continue
+            for fn in ("phys", 1):
                 out.append({"kind": "sweep", "bus": bus, "bank": bank, "fn": fn})
     nrand = 60 if tier == "quick" else 600
     for _ in range(nrand):
